@@ -4,6 +4,7 @@
 #define TETL_RATIO_DIVIDE_HPP
 
 #include <etl/_ratio/ratio.hpp>
+#include <etl/_ratio/ratio_multiply.hpp>
 
 namespace etl {
 
@@ -12,7 +13,7 @@ namespace etl {
 /// R1 and R2.
 /// \ingroup ratio
 template <typename R1, typename R2>
-using ratio_divide = ratio<R1::num * R2::den, R1::den * R2::num>;
+using ratio_divide = ratio_multiply<R1, ratio<R2::den, R2::num>>;
 
 } // namespace etl
 
